@@ -334,6 +334,48 @@ func readAll(target reflect.Type, rd avro.Reader, cbErrAt int, cbErr error) (out
 	return readAllOut(target, false, rd, cbErrAt, cbErr)
 }
 
+// targetFor returns the struct type a reader plan decodes into.
+func targetFor(full reflect.Type, project int) reflect.Type {
+	switch project {
+	case 1:
+		if full.NumField() >= 2 {
+			return projectedType(full)
+		}
+	case 2:
+		var fields []reflect.StructField
+		for i := full.NumField() - 1; i >= 0; i-- {
+			f := full.Field(i)
+			fields = append(fields, reflect.StructField{Name: f.Name, Type: f.Type, Tag: f.Tag})
+		}
+		fields = append(fields, reflect.StructField{Name: "NotInFile", Type: reflect.TypeFor[*Inner](), Tag: `json:"not_in_file"`})
+		return reflect.StructOf(fields)
+	case 3:
+		return reflect.TypeFor[Empty]()
+	}
+	return full
+}
+
+// projectedEqual compares a record decoded into a projected target with the
+// full value written: every field the target has (by Go name) must match, and
+// fields the file lacks must be zero.
+func projectedEqual(full, got reflect.Value) (bool, string) {
+	t := got.Type()
+	for i := 0; i < t.NumField(); i++ {
+		name := t.Field(i).Name
+		fv := full.FieldByName(name)
+		if !fv.IsValid() {
+			if !got.Field(i).IsZero() {
+				return false, "." + name + ": field absent from the file is not zero"
+			}
+			continue
+		}
+		if ok, where := EqualNorm(fv, got.Field(i)); !ok {
+			return false, "." + name + where
+		}
+	}
+	return true, ""
+}
+
 // outFor builds the `out` argument of ReadFile: a struct value, or a pointer
 // to a struct the caller owns.
 func outFor(target reflect.Type, ptr bool) any {
